@@ -36,6 +36,12 @@ def Sym.effective (V : Int) (d90v d180v swap squareVoxels : Bool) : Sym :=
   let d180 := if V.tmod 2 != 0 then false else d180
   { V := V, d90 := d90, d180 := d180, swapSeg := swap }
 
+/-- … and for TOF data the constructor switches all view/segment symmetries off
+    ("Disabling rotational symmetries / segment swapping for the projector with TOF data") -/
+def Sym.effectiveTOF (V : Int) (d90v d180v swap squareVoxels tof : Bool) : Sym :=
+  if tof then { V := V, d90 := false, d180 := false, swapSeg := false }
+  else Sym.effective V d90v d180v swap squareVoxels
+
 structure VS where
   view : Int
   seg : Int
